@@ -140,6 +140,7 @@ func cmdCheck(args []string) {
 	os.RemoveAll(outDir)
 	d := &Discharger{Dir: outDir, Timeout: timeout, All: all}
 	d.Run(obls)
+	retried := d.Retry(obls, 4)
 	groups := groupObls(obls)
 	byName := map[string]*Group{}
 	for _, g := range groups {
@@ -354,6 +355,7 @@ func cmdCheck(args []string) {
 			"functions_under_contract":  fucs,
 			"obligations_by_backend":    d.Stats,
 			"solver_time_s":             map[string]float64{"sum": d.SolverTime, "max": d.MaxTime},
+			"obligations_retried_after_timeout": retried,
 			"slowest":                   slowest,
 			"bounded":                   cl.Bounded,
 			"known_findings_hit":        knownHit,
